@@ -2264,9 +2264,61 @@ def cli_e2e(ctx, pid):
             for l in (log.read_text().splitlines() if log.exists() else []):
                 try: os.kill(int(l.split()[1]), 9)
                 except Exception: pass
+    def stdin_quit():
+        """--stdin-quit: input on watchexec's stdin is nothing, end of input is the graceful shutdown (keyboard source -> Keyboard::Eof -> Ca.onEof)"""
+        d, log = setup("stdin-quit")
+        cmd = [str(core.TARGET / "wxcli-main"), "--project-origin", str(d / "proj"), "-w", str(d / "proj"), "--no-vcs-ignore", "-n", "-q", "--stdin-quit", "--stop-timeout=700ms", "--", "sh", "-c",
+               f'trap "exit 0" TERM; echo "START $$" >> {log}; while :; do sleep 0.1; done']
+        p = subprocess.Popen(cmd, stdin=subprocess.PIPE, stderr=subprocess.DEVNULL, stdout=subprocess.DEVNULL, env=dict(os.environ, HOME=str(d / "home")), cwd=str(d / "proj"))
+        try:
+            if wait_line(log, "START", 6.0) is None: return None
+            child = int(log.read_text().split()[1])
+            p.stdin.write(b"some input\n"); p.stdin.flush()
+            time.sleep(0.8)
+            if p.poll() is not None: return ["--stdin-quit: watchexec exited on mere INPUT on its stdin (only end of input quits)"]
+            t0 = time.time(); p.stdin.close()
+            try: p.wait(timeout=8)
+            except Exception: return ["--stdin-quit: end of input on watchexec's stdin: it had not exited after 8 s (stop timeout 700 ms, the command exits on the stop signal)"]
+            took = time.time() - t0; out = []
+            if took > 0.7 + 1.5: out.append(f"--stdin-quit: end of input: the shutdown took {took:.2f} s, stop timeout 0.7 s (+1.5 s margin)")
+            time.sleep(0.3)
+            if alive(child): out.append(f"--stdin-quit: the command (pid {child}) is still alive after watchexec exited")
+            return out
+        finally:
+            finish(p)
+            for l in (log.read_text().splitlines() if log.exists() else []):
+                try: os.kill(int(l.split()[1]), 9)
+                except Exception: pass
+    def mapped_signal():
+        """--map-signal=TERM:USR1: a TERM sent to watchexec is for the command (as USR1) and does not quit; the unmapped INT still quits"""
+        d, log = setup("map-signal")
+        p = launch(d, ["--map-signal=TERM:USR1", "--stop-timeout=700ms"], f'trap "echo GOTUSR1 >> {log}" USR1; trap "exit 0" TERM; echo "START $$" >> {log}; while :; do sleep 0.1; done')
+        try:
+            if wait_line(log, "START", 6.0) is None: return None
+            child = int(log.read_text().split()[1])
+            time.sleep(0.3)
+            p.send_signal(sg.SIGTERM)
+            got = wait_line(log, "GOTUSR1", 4.0)
+            out = []
+            if p.poll() is not None: return ["--map-signal=TERM:USR1: a TERM sent to watchexec made it exit although the signal is mapped (it is for the command)"]
+            if got is None: out.append("--map-signal=TERM:USR1: a TERM sent to watchexec did not reach the command as USR1 within 4 s")
+            if not alive(child): out.append("--map-signal=TERM:USR1: the command was ended by a TERM sent to watchexec (it should have received USR1)")
+            t0 = time.time(); p.send_signal(sg.SIGINT)
+            try: p.wait(timeout=8)
+            except Exception: return out + ["--map-signal=TERM:USR1: the unmapped INT did not make watchexec exit within 8 s"]
+            if time.time() - t0 > 0.7 + 1.5: out.append(f"--map-signal=TERM:USR1: the unmapped INT: shutdown took {time.time() - t0:.2f} s, stop timeout 0.7 s (+1.5 s margin)")
+            time.sleep(0.3)
+            if alive(child): out.append(f"--map-signal=TERM:USR1: the command (pid {child}) is still alive after the INT shutdown")
+            return out
+        finally:
+            finish(p)
+            for l in (log.read_text().splitlines() if log.exists() else []):
+                try: os.kill(int(l.split()[1]), 9)
+                except Exception: pass
     jobs = ([("start-up run", lambda: startup(False)), ("--postpone", lambda: startup(True)), ("start-up run with a long debounce", startup_long_debounce)] if pid == "C05" else
             [(f"{sn} {'ignored' if ig else 'honoured'}", (lambda sn=sn, ig=ig: quit_on(sn, ig))) for sn in ("SIGINT", "SIGTERM") for ig in (False, True)] +
-            [(f"{sn} inside a debounce window", (lambda sn=sn: quit_in_window(sn))) for sn in ("SIGINT", "SIGTERM")])
+            [(f"{sn} inside a debounce window", (lambda sn=sn: quit_in_window(sn))) for sn in ("SIGINT", "SIGTERM")] +
+            [("--stdin-quit: end of input", stdin_quit), ("--map-signal: mapped TERM, unmapped INT", mapped_signal)])
     with ThreadPoolExecutor(len(jobs)) as ex: results = list(ex.map(lambda j: j[1](), jobs))
     for i, ((name, _), r) in enumerate(zip(jobs, results)):
         s.evaluations += 1; s.bump(name if r is not None else name + " (inconclusive)"); s.nontrivial.add(name.encode())
